@@ -515,6 +515,7 @@ def check_C13(chk):
                 "constructors are split by an independent URI splitter and judged by Trace_Uri; secrets are searched in "
                 "the whole encoded request; distinct = distinct target strings")
     chk.assumptions = ["targets that http::Uri rejects are outside the domain (counted)", "independent splitter of the harness"]
+    tlaps_check(chk, "IppUriProofs.tla", 11)      # unbounded: every URI record, not only the 576 shapes
     uri_pipeline(chk, "C13", True, False)
 
 
@@ -523,6 +524,7 @@ def check_C14(chk):
                 "by Trace_Uri with Transport(target): ipp->http, ipps->https, port 631 when absent, everything else "
                 "unchanged; the listed known finding (ipps default 443) is admitted only for its input class")
     chk.assumptions = ["hook verif_transport_url is the function the clients call (client.rs)", "independent splitter"]
+    tlaps_check(chk, "IppUriProofs.tla", 11)
     uri_pipeline(chk, "C14", False, True)
 
 
@@ -639,6 +641,7 @@ def check_C17(chk):
     build_harness()
     wd = workdir("C17")
     cases = os.path.join(wd, "cases.ndjson")
+    tlaps_check(chk, "IppReadyProofs.tla", 37)    # unbounded: every response, reasons sets of any size
     r = mc("C17", "mc_ready", "MC_Ready.tla", dict(MaxReasons=3), ["OperationalAllowed", "Gen"], case_file=cases)
     chk.add_mc(r, "MC_Ready MaxReasons=3")
     out = os.path.join(wd, "run")
